@@ -34,6 +34,8 @@ fn args() -> (String, HashMap<String, String>) {
 /// has consumed 15 s of CPU without returning is spinning. (Outside guarded calls only a far larger budget applies.)
 pub static WATCHDOG: std::sync::atomic::AtomicU64 = std::sync::atomic::AtomicU64::new(0);
 pub static IN_CALL: std::sync::atomic::AtomicI64 = std::sync::atomic::AtomicI64::new(0);
+/// the next iterators are created the ordinary way, seeded from the operating system (no seed override of the hooks)
+pub static OS_ENTROPY: std::sync::atomic::AtomicBool = std::sync::atomic::AtomicBool::new(false);
 pub static WATCH_TEXT: std::sync::Mutex<String> = std::sync::Mutex::new(String::new());
 pub static HANG_FILE: std::sync::Mutex<String> = std::sync::Mutex::new(String::new());
 
